@@ -167,6 +167,10 @@ def floor_offset(prog, t, acc, cls, depth=0):
     if t[0] == "bin" and len(t) >= 5 and str(t[4]).startswith("f"):
         return ("bad", "float arithmetic (%s) is applied to the coordinate before it is floored: f32 rounding moves values across integer boundaries "
                        "(tiny negatives, magnitudes beyond 2^23)" % t[1])
+    if t[0] == "field" and isinstance(t[1], tuple) and t[1][0] == "agg" and t[1][1] == "tuple" and str(t[2]).rsplit(".", 1)[-1].isdigit():
+        k_ = int(str(t[2]).rsplit(".", 1)[-1])
+        if k_ < len(t[1][2]):
+            return floor_offset(prog, t[1][2][k_], acc, cls, depth)
     if t[0] == "field" and t[2] in ("(,).0", "tuple.0", "0"):
         return floor_offset(prog, t[1], acc, cls, depth)
     return ("unknown", "term %s" % T.show(t)[:60])
@@ -239,9 +243,12 @@ def check_config(rep, prog):
     rep.floor("C12.samplers.%s" % cfg, len(samplers), 2 if "fp" in feats else 1, "sampler types present")
     items = P.Items(prog)
     for name, comp in samplers:
-        sa = prog.body(TEX + name + "::sample_abs")
-        sm = prog.body(TEX + name + "::sample")
-        sl = items.slicer(sa)
+        sa0 = prog.body(TEX + name + "::sample_abs")
+        sm0 = prog.body(TEX + name + "::sample")
+        # private helpers of tex.rs (a texel fetch, a per-axis wrap/clamp, a relative-to-absolute scaling) are seen through
+        helper = lambda cb, f=sa0.file: (not cb.is_pub) and cb.file == f and cb.kind in ("Fn", "AssocFn")  # noqa: E731
+        sa, sm = prog.inlined(sa0, depth=2, pred=helper), prog.inlined(sm0, depth=2, pred=helper)
+        sl = T.Slicer(sa)
         # ---- B-index
         ics = index_calls(sa, sl)
         rep.floor("C12.B-index.%s.%s" % (name, cfg), len(ics), 1, "view index in sample_abs")
@@ -277,7 +284,7 @@ def check_config(rep, prog):
                 bounded = False
                 rep.violate("C12.B-index", "B-index|%s|data" % name, sa.where(bi, None), "%s::sample_abs indexes something other than tex.data (%s)" % (name, T.show(rv)[:80]), config=cfg)
         # ---- P-total
-        seen, edges, generic, std_safe = P.inventory(prog, [sa, sm])
+        seen, edges, generic, std_safe = P.inventory(prog, [sa0, sm0])
         P.discharge_generic(edges, items)
         for e in edges:
             if e.discharged:
@@ -285,7 +292,10 @@ def check_config(rep, prog):
                 continue
             bp = e.body.path
             why = None
-            if bp == INNER + "to_index_strict::{closure#0}" and e.kind == "diverge":
+            strict = INNER + "to_index_strict"
+            never_returns = not any(blk_["term"]["k"] == "Return" for blk_ in e.body.blocks)
+            via_strict = any(strict in hop.replace("core::util", "retrofire_core::util") for hop in CG.path_to(seen, bp)[-1:])
+            if e.kind == "diverge" and (bp == strict or bp.startswith(strict + "::{closure") or (never_returns and via_strict and not e.body.is_pub)):
                 why = "B-index: both index components are bounded against their own axis" if bounded else None
             elif bp == INNER + "to_index" and e.kind == "assert" and e.what in ("Overflow:Mul", "Overflow:Add"):
                 why = "Inner invariant (C11 R3/R5): called only with x < w && y < h, for which (h-1)*stride + w was computed without overflow"
@@ -300,7 +310,7 @@ def check_config(rep, prog):
                             % (name, e.kind, e.what, " ; ".join(CG.path_to(seen, bp)) or CG.short(bp)), config=cfg)
         rep.extra.setdefault("generic_dispatch_assumed_total", {})["%s/%s" % (cfg, name)] = generic
         # ---- D-rel
-        msl = items.slicer(sm)
+        msl = T.Slicer(sm)
         dc = [(bi, t) for bi, t in sm.calls(lambda c: c["path"].endswith(name + "::sample_abs"))]
         ok_rel = False
         if len(dc) == 1:
